@@ -19,7 +19,8 @@ from . import core
 
 THEOREMS = ["C11_expr", "C11_residual", "C11_total", "C11_total_fixed_table", "C11_total_refuted_ne",
             "C11_loop_range", "C11_three_part_range", "C11_three_part_range_old_reading_refuted",
-            "C11_function_partial", "C11_function_order", "C11_function_if_refuted", "C11_function_if_repaired_witness", "C11_matrix_residual", "C11_square_not_transposed", "C11_example"]
+            "C11_function", "C11_call_residual", "C11_function_order", "C11_function_if_refuted",
+            "C11_function_if_repaired_witness", "C11_function_if_example", "C11_matrix_residual", "C11_square_not_transposed", "C11_example"]
 
 GEN_PY = "src/pymoca/backends/casadi/generator.py"
 
@@ -1719,9 +1720,9 @@ def run(ctx):
         "(Model/C11_functions.v, C11_arrays.v) and go through the correspondence (check_xcase) as well as the oracle; "
         "nested loops, delay, interpolation, 3-D arrays, arrays inside functions are not generated",
         "relations on Boolean operands (e.g. (a or b) == c) are outside the typed grammar (typeof)",
-        "C11_function_partial covers assignment and for-statements; if-statements are in the executable model and the "
-        "correspondence only; in-expression function calls and 2-D element references inside scalar expressions are "
-        "judged by the oracle only",
+        "C11_function covers assignment, for- and (for the repaired exitIfStatement, seq_if = true) if-statements; nested "
+        "statements inside if/for bodies are outside the model; in-expression function calls and 2-D element references "
+        "inside scalar expressions are judged by the oracle only",
     ]
 
 
